@@ -310,6 +310,24 @@ fn check(ctx: &Ctx) -> i32 {
         }
         vh::netsweep::check_list("c01.cube", &items, &reqs, l, false, true);
     });
+    // bucket sizes: n rules that share their only indexable token (one bucket of n entries), each
+    // matching exactly one URL of its own, for every n up to a bound; every third rule is an
+    // exception for the preceding rule's URL family, so that two lists have large buckets
+    let n_max: u64 = ctx.tier.pick(120, 300);
+    ctx.bound("bucket_size_max", n_max);
+    ctx.par_range("bucket sizes", n_max, 1, |i, l| {
+        let n = i as usize + 1;
+        let texts: Vec<String> = (0..n).map(|k| if k % 3 == 2 { format!("@@/adv/x{:03}", k - 1) } else { format!("/adv/x{:03}", k) }).collect();
+        let items: Vec<(&str, bool)> = texts.iter().map(|t| (t.as_str(), false)).collect();
+        let mut rq: Vec<alpha::Req> = vec![];
+        for k in 0..n + 1 {
+            let url = format!("https://x.com/adv/x{:03}", k);
+            if let Ok(req) = adblock::request::Request::new(&url, "https://y.org/", "script") {
+                rq.push(alpha::Req { req, url, source: "https://y.org/".into(), ty: "script" });
+            }
+        }
+        vh::netsweep::check_list("c01.bucket-size", &items, &rq, l, false, false);
+    });
     // bucket forcing: every rule of the pool, stored under each of its indexable tokens in turn
     let forced: Vec<(&'static str, String, Vec<String>)> = alpha::R_NET.iter().flat_map(|r| forced_lists(r).into_iter().map(move |(t, l)| (*r, t, l))).collect();
     ctx.bound("bucket_forcing_lists", forced.len());
@@ -346,7 +364,7 @@ fn check(ctx: &Ctx) -> i32 {
     }
     ctx.finish(
         "model_checking",
-        "all ordered lists without repetition of <= k rules of the pool (R_net + 2 hosts lines), every (blocking rule, exception, modifier rule) triple of it, every cell of the rule cube (pattern shapes x option sets x exception) alone and next to 7 partner rules, each built into a real engine (no optimisation), under every subset of the tags the list mentions, against every request of U_net x (initiator,type); plus bucket forcing (every pool rule with two filler rules per other indexable token, so that the rule is stored under each of its tokens in turn) and a corpus sweep (3 613 real rules from EasyList / uBO / Brave lists, frozen under harness/corpus, loaded as one list, against URLs derived from every rule by a fixed procedure x initiators x types); non-trivial = at least one rule of the list matches the request per the public matcher; states = engines built, transitions = requests checked, each compared field by field (matched, important, exception, redirect, rewritten URL, CSP set) with the reference combiner",
+        "all ordered lists without repetition of <= k rules of the pool (R_net + 2 hosts lines), every (blocking rule, exception, modifier rule) triple of it, every cell of the rule cube (pattern shapes x option sets x exception) alone and next to 7 partner rules, n same-bucket rules for every n up to a bound, each built into a real engine (no optimisation), under every subset of the tags the list mentions, against every request of U_net x (initiator,type); plus bucket forcing (every pool rule with two filler rules per other indexable token, so that the rule is stored under each of its tokens in turn) and a corpus sweep (3 613 real rules from EasyList / uBO / Brave lists, frozen under harness/corpus, loaded as one list, against URLs derived from every rule by a fixed procedure x initiators x types); non-trivial = at least one rule of the list matches the request per the public matcher; states = engines built, transitions = requests checked, each compared field by field (matched, important, exception, redirect, rewritten URL, CSP set) with the reference combiner",
         &[
             "per-rule match = the public NetworkFilter::matches on the parsed rule (differential); precedence, badfilter, tags, redirect choice, removeparam and CSP come from the independent reference",
             "no 64-bit seahash collision among the strings of the alphabets (checked at start-up)",
